@@ -33,6 +33,9 @@ MANIFEST = {
  "technique": "Lean 4 proof over executable model + correspondence (whole-library syscall interposition, real kernel and scripted batches) + monitors",
 }
 
+FINDINGS = [("second_handle.txt", "poll-stop-of-inactive-second-handle-unregisters-active-one", "interest-mismatch"),
+            ("ebadf_close_fd_first_dup.txt", "ebadf-stopped-handle-entry-survives-close-fd-first", "interest-closed-handle")]
+
 POLLIN, POLLPRI, POLLOUT, POLLERR, POLLHUP, POLLRDHUP = 1, 2, 4, 8, 16, 0x2000
 ALL4 = POLLIN | POLLPRI | POLLOUT | POLLRDHUP
 RD, WR, DC, PR = 1, 2, 4, 8
@@ -467,6 +470,17 @@ def run(ctx):
     ccases = [[l for l in p.read_text().splitlines() if l.strip()] for p in sorted(cdir.glob("*.txt"))] if cdir.exists() else []
     ccases += [many_fds_case(1), many_fds_case(0)] if not ctx.quick else [many_fds_case(1, 262)]
     good = run_cases(ctx, exe, ccases, "corpus")
+    # suspected defects found while building this check (model agrees with the code; the discipline switch
+    # multi=1 is needed to reach them).  They are replayed only when known_findings.txt lists their signature.
+    fdir = VERIF / "corpus" / "C14-findings"
+    for fname, sig, expect in FINDINGS:
+        if sig in ctx.known and (fdir / fname).exists():
+            c = [l for l in (fdir / fname).read_text().splitlines() if l.strip()]
+            r, il = check_case(ctx, exe, c)
+            if isinstance(r, Bad) and r.sig == expect:
+                ctx.violation(sig, r.what, {"ops": c})
+            else:
+                ctx.notes.setdefault("findings_not_reproduced", []).append(sig)
     total = ctx.scale(1200, 40000)
     done = 0
     while good and done < total and not ctx.violations:
